@@ -410,6 +410,31 @@ def make_case(rng, lits):
     return {'src': src, 'src_min': src_min, 'lits': lits, 'envs': envs, 'atoms': atoms, 'muts': muts, 'clauses': clauses, 'atom_calls': calls,
             'cli_sub': rng.random() < 0.06, 'file_opts': rng.random() < 0.5}
 
+# ---- files given as BYTES: what the file / command-line entry points read (strict UTF-8, no line-end or BOM handling)
+
+INVALID_UTF8 = [[0x80], [0xBF], [0xC3], [0xE2, 0x82], [0xF0, 0x9F, 0x98], [0xC0, 0x80], [0xC1, 0xBF], [0xE0, 0x80, 0x80], [0xE0, 0x9F, 0xBF],
+                [0xF0, 0x80, 0x80, 0x80], [0xF0, 0x8F, 0xBF, 0xBF], [0xED, 0xA0, 0x80], [0xED, 0xBF, 0xBF], [0xF4, 0x90, 0x80, 0x80],
+                [0xF5, 0x80, 0x80, 0x80], [0xF8, 0x88, 0x80, 0x80, 0x80], [0xFE], [0xFF], [0xC3, 0x28], [0xE2, 0x28, 0xA1]]
+BOUNDARY_UTF8 = [[0x7F], [0xC2, 0x80], [0xDF, 0xBF], [0xE0, 0xA0, 0x80], [0xED, 0x9F, 0xBF], [0xEE, 0x80, 0x80], [0xEF, 0xBF, 0xBF],
+                 [0xF0, 0x90, 0x80, 0x80], [0xF4, 0x8F, 0xBF, 0xBF], [0xEF, 0xBB, 0xBF], [0x0D], [0x0D, 0x0A], [0xC2, 0x85], [0xE2, 0x80, 0xA8], [0x00], [0x1A]]
+
+def bytes_case(rng):
+    """a file p('<payload>'). whose payload is the UTF-8 form of a random atom text, usually damaged or extended by byte
+    sequences at the edges of the encoding (shortest/longest forms of each length, surrogates, overlong forms, truncated
+    and stray bytes, byte order mark, CR / CR LF / NEL / LS, NUL, ctrl-Z); sometimes a byte order mark in front of the file"""
+    text = rnd_text_layer_atom(rng) if rng.random() < 0.6 else rng.choice(QUOTED)
+    payload = list(text.encode('utf8'))
+    for _ in range(rng.choice([0, 1, 1, 2])):
+        ins = rng.choice(INVALID_UTF8) if rng.random() < 0.5 else rng.choice(BOUNDARY_UTF8)
+        pos = rng.choice([0, len(payload), rng.randrange(len(payload) + 1)])
+        payload[pos:pos] = ins
+    if rng.random() < 0.15 and payload:
+        del payload[rng.randrange(len(payload))]
+    payload = [b for b in payload if b not in (0x27, 0x5C)]
+    pre = rng.choice([[], [], [], [], [0xEF, 0xBB, 0xBF], [0x0D, 0x0A], [0xFF, 0xFE]])
+    nl = rng.choice([[0x0A], [0x0D, 0x0A], [0x0D], []])
+    return {'kind': 'bytes', 'bytes': pre + list(b"p('") + payload + list(b"').") + nl}
+
 def gen(rng, tier):
     n = 100 if tier == 'quick' else 1800
     cases = []
@@ -425,6 +450,8 @@ def gen(rng, tier):
         if rng.random() < 0.5:
             lits.append(['fun', rnd_text_layer_atom(rng), [['var', 'X']]])
         cases.append(make_case(rng, lits))
+    for _ in range(40 if tier == 'quick' else 1500):
+        cases.append(bytes_case(rng))
     return cases
 
 def builtin_corpus():
@@ -463,9 +490,15 @@ def builtin_corpus():
     groups.append([F('g', F('h', A('i'))), F('g', A('h(i)')), A('g(h(i))'), F('g', F('h', A('i')), A('j')), F('g', A('h(i),j'))])
     groups.append([F('f', V('X')), F('f', A('X')), F('f', V('_')), F('f', A('_')), F('f', ['num', '1']), F('f', A('1'))])
     groups.append([P([A('a')], V('T')), L(A('a|T')), L(A('a'), V('T')), L(A('a'), A('T'))])
-    return [make_case(rng, g) for g in groups]
+    L = [make_case(rng, g) for g in groups]
+    for seq in INVALID_UTF8 + BOUNDARY_UTF8:
+        L.append({'kind': 'bytes', 'bytes': list(b"p('a") + [b for b in seq if b not in (0x27, 0x5C)] + list(b"z').\n")})
+    L.append({'kind': 'bytes', 'bytes': [0xEF, 0xBB, 0xBF] + list(b"p('a').\n")})
+    return L
 
 def model_expr(case):
+    if case.get('kind') == 'bytes':
+        return '(run_bytes %s)' % g_list(['%d%%N' % b for b in case['bytes']])
     envs = g_list([g_list(['(%s, %s)' % (g_str(v), ast_io.g_sterm(t)) for v, t in env.items()]) for env in case['envs']])
     calls = g_list(['(%s, %s)' % ('true' if e else 'false', g_str(n)) for e, n in case['atom_calls']])
     return '(run_c16b %s %s %s)' % (g_str(case['src']), envs, calls)
@@ -676,7 +709,46 @@ def _entry_points(E, case, code):
     shutil.rmtree(d, ignore_errors=True)
     return out
 
+def _impl_bytes(case):
+    """the bytes as a file through compile_prolog_from_file and the command line (file, standard input); when they are
+    valid UTF-8 also as a string: -> per entry point ['atom', name of the atom p(X) answers] | ['raised', class]"""
+    from yldprolog import engine as E
+    from yldprolog import compiler
+    data = bytes(case['bytes'])
+    d = _scratch()
+    path = os.path.join(d, 'bytes.prolog')
+    with open(path, 'wb') as f:
+        f.write(data)
+    runs = [('file', lambda: compiler.compile_prolog_from_file(path)),
+            ('cli_file', lambda: _cli_inprocess([path], b'', d)),
+            ('cli_stdin', lambda: _cli_inprocess(['-'], data, d))]
+    try:
+        text = data.decode('utf8')
+        runs.append(('string', lambda: compiler.compile_prolog_from_string(text)))
+    except UnicodeDecodeError:
+        pass
+    out = {}
+    for name, fn in runs:
+        try:
+            code = fn()
+        except RecursionError:
+            raise
+        except BaseException as e:
+            cls = type(e).__name__
+            if cls == 'ClickException':
+                cls = 'CompilerError'          # the command line reports a CompilerError of the library as a ClickException
+            out[name] = ['raised', 'CompilerError' if cls == 'CompilerSyntaxError' else cls]
+            continue
+        yp = E.YP(); yp.load_script_from_string(code)
+        X = yp.variable()
+        vals = [E.get_value(X) for _ in yp.query('p', [X])]
+        out[name] = ['atom', vals[0].name()] if len(vals) == 1 and isinstance(vals[0], E.Atom) and vals[0] is yp.atom(vals[0].name()) else ['other', len(vals)]
+    shutil.rmtree(d, ignore_errors=True)
+    return {'bytes': out}
+
 def impl(case):
+    if case.get('kind') == 'bytes':
+        return _impl_bytes(case)
     from yldprolog import engine as E
     from yldprolog.compiler import compile_prolog_from_string
     try:
@@ -919,9 +991,29 @@ def _entries_and_all(lits, case, io):
                 return '%s: to_python of literal %d gives %r, expected %r' % (what, i, a[0][i][0], free)
     return None
 
+def _bytes_expected(data):
+    """what Python's strict codec says the file holds: the atom text between p(' and ') or the exception class"""
+    try:
+        text = bytes(data).decode('utf8')
+    except UnicodeDecodeError:
+        return ['raised', 'UnicodeDecodeError']
+    i, j = text.find("p('"), text.rfind("')")
+    if text[:i].strip(' \t\r\n'):
+        return ['raised', 'CompilerError']
+    return ['atom', text[i + 3:j]]
+
+def _oracle_bytes(case, io):
+    want = _bytes_expected(case['bytes'])
+    for name, got in io['bytes'].items():
+        if got != want:
+            return 'a file of the bytes %r read through %s: %r, expected %r (strict UTF-8, nothing converted or dropped)' % (bytes(case['bytes']), ENTRY_NAMES.get(name, name), got, want)
+    return None
+
 def oracle(case, io):
     if not isinstance(io, dict):
         return None
+    if case.get('kind') == 'bytes':
+        return _oracle_bytes(case, io)
     if io['compile'][0] != 'ok':
         return 'a program of literals does not compile: %r' % (io['compile'],)
     r = _expected_from(case['lits'], case, io) or _entries_and_all(case['lits'], case, io)
@@ -960,6 +1052,15 @@ def _unnumber(t):
 
 def compare(case, io, mo):
     if not isinstance(io, dict):
+        return None
+    if case.get('kind') == 'bytes':
+        if mo[0] == 'undecodable': want = ['raised', 'UnicodeDecodeError']
+        elif mo[0] == 'syntax': want = ['raised', 'CompilerError']
+        elif mo[0] == 'atom': want = ['atom', mo[1]]
+        else: want = ['other']
+        for name, got in io['bytes'].items():
+            if got != want:
+                return 'a file of the bytes %r read through %s: %r, the model (utf8_decode, front) gives %r' % (bytes(case['bytes']), ENTRY_NAMES.get(name, name), got, want)
         return None
     mo, fp = mo
     mo, mlits, matoms = mo
@@ -1044,6 +1145,8 @@ def _interesting_atom(s):
     return any(ch in s for ch in "'\n\r") or any(ord(ch) > 127 for ch in s)
 
 def nontrivial(case, io):
+    if case.get('kind') == 'bytes':
+        return isinstance(io, dict) and any(b >= 0x80 or b == 0x0D for b in case['bytes'])
     if not isinstance(io, dict) or io['compile'][0] != 'ok':
         return False
     for lit in case['lits']:
@@ -1054,9 +1157,16 @@ def nontrivial(case, io):
     return False
 
 def describe(case):
+    if case.get('kind') == 'bytes':
+        return {'file bytes': repr(bytes(case['bytes']))}
     return {'literals': [ast_io.term_text(l) for l in case['lits']], 'source': case['src']}
 
 def shrink(case):
+    if case.get('kind') == 'bytes':
+        b = case['bytes']
+        for i in range(4, len(b) - 3):
+            yield dict(case, bytes=b[:i] + b[i + 1:])
+        return
     lits = case['lits']
     rng = random.Random(1)
     if len(lits) > 1:
@@ -1080,7 +1190,12 @@ def distribution(cases, obs):
         if k == 'list': return 1 + max([depth(a) for a in t[1]] + [0])
         if k == 'pair': return 1 + max(depth(t[1]), depth(t[2]))
         return 0
+    d['byte_files'] = {}
     for c, o in zip(cases, obs):
+        if c.get('kind') == 'bytes':
+            k = o['bytes'].get('file', ['?'])[0] if isinstance(o, dict) else '?'
+            d['byte_files'][k] = d['byte_files'].get(k, 0) + 1
+            continue
         if isinstance(o, dict) and o['compile'][0] != 'ok':
             d['compile_failed'] += 1
         for lit in c['lits']:
